@@ -244,6 +244,69 @@ def after_workload(arg):
     return vio, dict(oc), {n: verdict_table(n) for n in names[::7]}, fresh_table()
 
 
+PARSER_DOC = """<score-partwise version="4.0"><part-list><score-part id="P1"><part-name>a</part-name></score-part></part-list>
+<part id="P1"><measure number="1">
+<note><chord/><pitch><step>C</step><octave>4</octave></pitch><duration>1</duration><dot/><dot/><notations><articulations><staccato/><accent/></articulations></notations></note>
+<note><chord/><rest/><duration>1</duration><dot/><notations><articulations><staccato/></articulations></notations></note>
+</measure><measure number="2"><note><rest/><duration>1</duration><notations><articulations><staccato/></articulations></notations></note></measure></part></score-partwise>"""
+
+
+def parser_isolation(_):
+    """(3) trees returned by parse_musicxml share nothing: parse the same document twice (and a second document); change
+    every node of tree 1 in turn (set an optional attribute, else re-assign its value) and require that tree 2 and
+    every OTHER node of tree 1 serialise as before"""
+    from mc import docs
+    vio = []
+    n = 0
+    rd = docs.run_dir()
+    cdir = os.path.join(core.VERIF, 'corpus')
+    texts = [('synthetic', PARSER_DOC)] + [(f, open(os.path.join(cdir, f), encoding='utf-8').read()) for f in sorted(os.listdir(cdir))]
+    for dname, text in texts:
+        p1 = docs.parse_text(text, rd, 'c13a')
+        p2 = docs.parse_text(text, rd, 'c13b')
+        if not (p1.ok and p2.ok):
+            continue
+        t1, t2 = p1.value, p2.value
+
+        def walk(e, path=()):
+            yield path, e
+            for i, c in enumerate(e.get_children(ordered=False)):
+                yield from walk(c, path + (i,))
+        nodes = list(walk(t1))[:400]
+        base2 = t2.to_string()
+        for path, node in nodes:
+            kind, t = (None, None)
+            ts = R.partwise_elements().get(node.name)
+            if ts and len(ts) == 1:
+                kind, t = R.element_type(node.name)
+            same = [(p, x) for p, x in nodes if x is not node and x.name == node.name]
+            before = [dict(x.attributes) for p, x in same]
+            done = None
+            if kind == 'complex':
+                for (an, at, req) in R.ctype_attrs(t):
+                    if ':' in an or an == 'name' or an in node.attributes:
+                        continue
+                    for v in impl._from_sample(at):
+                        if call(setattr, node, an.replace('-', '_'), v).ok:
+                            done = ('attr', an)
+                            break
+                    if done:
+                        break
+            if not done:
+                continue
+            n += 1
+            leaked = [list(p) for (p, x), b in zip(same, before) if dict(x.attributes) != b]
+            after2 = t2.to_string()
+            if after2 != base2:
+                vio.append({'scope': 'parser', 'kind': 'cross-instance-effect', 'key': [dname, 'second-parse-changed', node.name, done[1]]})
+                base2 = after2
+            if leaked:
+                vio.append({'scope': 'parser', 'kind': 'cross-instance-effect', 'key': [dname, 'same-tree-node-changed', node.name, done[1]]})
+            call(setattr, node, done[1].replace('-', '_'), None)
+    return vio, n
+
+
+
 def pair_list():
     out = [(T, impl.REP[T], T, impl.REP[T]) for T in impl.TYPES]
     # different element classes bound to the same element-content complex type
@@ -289,6 +352,11 @@ def run(tier):
         orders = orders.get()
     oc = collections.Counter()
     ncmp = 0
+    with ctx.Pool(1) as pool:
+        pv, pn = pool.map(parser_isolation, [0])[0]
+    for v in pv:
+        run_.violation(v['scope'], v['kind'], v['key'])
+    oc['parser_nodes_mutated'] = pn
     for vio, o, tabs, ft in res:
         run_.add_violations(vio)
         for k, v in o.items():
